@@ -75,6 +75,43 @@ def check_graph(r, k, G, n, starts, thin=99):
         r.nontriv += len(strings)
 
 
+def long_graph(r, k, G, start, n):
+    """Long strands: clean rule walks (must come back untouched) and the same walks with two or
+    three edits at every pair of offsets on a grid (candidates sorted, duplicate-free, check-consistent)."""
+    acc = U.A(G)
+    for a, b in ((7, 3), (1, 0), (5, 1)):
+        w = U.rule_walk(G, start, n, a, b)
+        if len(w) < n:
+            continue
+        for ck in ('absent', 'correct', 'wrong'):
+            for indel, heap in ((False, 1000), (True, 1000), (True, 0)):
+                clean_case(r, k, G, acc, start, w, ck, indel, heap)
+        r.ctr['clean_walks'] += 1
+        step = k + 2
+        pos = list(range(k, n - k, step))
+        for i in range(0, len(pos) - 1, 2):
+            for gap in (1, 2, 3):
+                if i + gap >= len(pos):
+                    continue
+                p1, p2 = pos[i], pos[i + gap]
+                for e1 in U.single_edits(w, p1, p1 + 1)[::2]:
+                    for e2 in U.single_edits(w, p2, p2 + 1)[1::3]:
+                        s2 = U.apply_edit(U.apply_edit(w, e2), e1)
+                        for chk in (None, O.vt(w, 3)):
+                            any_case(r, k, G, acc, start, s2, chk, True)
+                        any_case(r, k, G, acc, start, s2, None, False)
+        r.states += 1
+        r.nontriv += 1
+    r.maxi('long_strand_nt', n)
+
+
+def _w_long(args):
+    r = core.Res()
+    k, G, start, n = args
+    long_graph(r, k, G, start, n)
+    return r
+
+
 def check_case(r, kind, case):
     G = RP.graph_of(case)
     acc = U.A(G)
@@ -110,7 +147,16 @@ def run(ctx):
     fam3 = RP.filter_graphs((2, 3), small=q)
     items = fam + fam2 + fam3
     ctx.pmap(_w, [(n_by_k, [c]) for c in items if c[0] >= 3] + [(n_by_k, c) for c in core.chunks_of([c for c in items if c[0] < 3], 4)])
-    ctx.bounds = {'lengths': 'k..n with n = %s' % n_by_k, 'graphs': {'order1': len(fam), 'order2_binary': len(fam2), 'filter_k2_k3': len(fam3)},
+    lg = RP.filter_graphs((2, 3, 4, 5), ts=(1, 2), small=True)
+    jobs = []
+    for k, G, t in lg[:(12 if q else 40)]:
+        live = sorted(O.has_arcs(G))
+        for st_ in (live[0], live[-1]):
+            for n in ((40,) if q else (40, 120)):
+                jobs.append((k, G, st_, n))
+    ctx.pmap(_w_long, jobs)
+    ctx.bounds = {'long_strands': '%d (filter graph of order 2-5, start) pairs: clean rule walks of %s nt, and double edits on an offset grid' % (len(jobs), '40' if q else '40/120'),
+                  'lengths': 'k..n with n = %s' % n_by_k, 'graphs': {'order1': len(fam), 'order2_binary': len(fam2), 'filter_k2_k3': len(fam3)},
                   'clean_options': str(OPTS_A), 'checks': 'absent / correct / wrong (clean walks); absent, own, and the check of every single-substitution neighbour (arbitrary strings)'}
     ctx.rule = ('clean: one case = (graph, start, walk, check kind, indel, heap): result is exactly [walk] (or [] iff the supplied check '
                 'disagrees) with zero detected errors; any-input: one case = (graph, start, ACGT string, check, indel): whenever '
